@@ -346,7 +346,7 @@ func (g *gen) malformed() Snip {
 }
 
 func (prop) Generate(r *core.RNG, tier string) []json.RawMessage {
-	n := 1800
+	n := 5000
 	if tier == "thorough" {
 		n = 30000
 	}
